@@ -475,14 +475,18 @@ class Envelope(Lane):
 
 def body(chk):
     quick = chk.tier == 'quick'
-    bl = 2 if quick else tier_param('C19', 4)
+    bl, ncl = (2, 2) if quick else tier_param('C19', (4, 2))
     run_lane(chk, Requests, (bl,), bounds={'cookies / identifiers': f'<= {bl} symbolic bytes', 'page size': 'all of 0..2^31-1', 'attribute lists': '<= 2 names', 'filters (Assertion, MatchedValues)': '2 templates with symbolic attribute/value characters',
                                           'PasswordModify': 'all 8 presence combinations'}, need_regions=tuple(Requests.KINDS))
     run_lane(chk, Responses, (bl,), bounds={'cookies / identifiers': f'<= {bl} symbolic bytes', 'length forms': FORMS, 'SyncInfo': 'all 4 alternatives, optional cookie/flag, <= 2 UUIDs'}, selftest=False,
              need_regions=('PagedResults', 'SyncState', 'SyncDone', 'SyncInfo:0', 'SyncInfo:1', 'SyncInfo:2', 'SyncInfo:3', 'ReadEntry', 'WhoAmI', 'StartTxn', 'PasswordModify'))
-    n = 2 if quick else 3
+    n = ncl
     run_lane(chk, Envelope, (n, bl), bounds={'controls per list': f'0..{n}', 'OID': 'symbolic UTF-8 or one of the 7 recognised OIDs', 'criticality': 'symbolic', 'value': f'absent or <= {bl} bytes'}, selftest=False,
              need_regions=tuple(f'n={i}' for i in range(n + 1)))
+    if not quick:
+        n3 = tier_param('C19E', (3, 1))
+        run_lane(chk, Envelope, n3, bounds={'controls per list': f'0..{n3[0]}', 'OID': 'symbolic UTF-8 or one of the 7 recognised OIDs', 'criticality': 'symbolic', 'value': f'absent or <= {n3[1]} bytes'}, selftest=False,
+                 need_regions=(f'n={n3[0]}',))
     chk.assumptions += [
         'request controls: the expected OID / criticality / BER value is written here from RFC 2696, 4533, 4527, 4528, 3876, 4370, 5805, 3296, draft relax, 4532, 3062',
         'response values are well-formed by construction (malformed ones panic by documented design and are outside this property)',
